@@ -11,7 +11,7 @@ CHECKS="$*"
 S=/tmp/wt/matrix-$ID-$$
 rm -rf "$S"; git -C /repo worktree prune
 git -C /repo worktree add -q --detach "$S" HEAD || exit 2
-(cd "$S" && git apply "$V/seeded/$ID/patch.diff") || { echo "patch does not apply"; git -C /repo worktree remove --force "$S"; exit 2; }
+(cd "$S" && { git apply "$V/seeded/$ID/patch.diff" 2>/dev/null || { git apply --3way "$V/seeded/$ID/patch.diff" >/dev/null 2>&1 && git reset -q && ! grep -rl '^<<<<<<< ' --include='*.go' . >/dev/null; }; }) || { echo "patch does not apply" | tee "$V/seeded/$ID/detect.txt"; git -C /repo worktree remove --force "$S"; exit 2; }
 W=/tmp/wt/matrix-$ID-$$.verif
 rm -rf "$W"; mkdir -p "$W/evidence"
 cp "$V/known_findings.json" "$W/"
